@@ -112,8 +112,44 @@ func (g *fgen) callInner(in ssa.CallInstruction, st *state) []val {
 			escaping = append(escaping, l)
 		}
 	}
+	// copy-in / copy-out: the callee sees the pointee as a stand-alone object at the
+	// interior pointer's address (its own heap cells); the enclosing object's cells are
+	// copied there before the call and copied back after it.
+	type viaPtr struct {
+		l  *loc
+		pl *loc
+	}
+	var linked []viaPtr
+	for i, a := range c.Args {
+		l, ok := g.locs[a]
+		if !ok || len(l.sub) > 0 || l.root == rootGlobal {
+			continue
+		}
+		if _, isArr := l.typ.Underlying().(*types.Array); isArr {
+			continue
+		}
+		if n, isN := l.typ.(*types.Named); isN && n.Obj().Pkg() != nil {
+			if pp := n.Obj().Pkg().Path(); pp != modPath && !strings.HasPrefix(pp, modPath+"/") {
+				continue // library object (mutex, buffer): opaque to the contracts
+			}
+		}
+		pl := g.ptrLoc(args[i].t, l.typ)
+		if pl.root == l.root && pl.rootT == l.rootT && len(pl.path) == len(l.path) && pl.base == l.base {
+			continue
+		}
+		g.store(st, pl, g.load(st, l))
+		linked = append(linked, viaPtr{l, pl})
+	}
 	defer func() {
+		done := map[*loc]bool{}
+		for _, vp := range linked {
+			g.store(st, vp.l, g.load(st, vp.pl))
+			done[vp.l] = true
+		}
 		for _, l := range escaping {
+			if done[l] {
+				continue
+			}
 			var keys []string
 			if len(l.sub) > 0 {
 				keys = []string{heapKey(l.root, l.rootT, l.path)}
